@@ -232,7 +232,9 @@ class Accumulate(Harness):
         W = bv.W
         nfiles = 1 + ctx.choose("nfiles", 2)
         counts = [1 + ctx.choose(f"cnt{f}", 3) for f in range(nfiles)]
-        mm = ctx.choose("mismatch", 3)          # 0: none; 1: the last packet has an extra field; 2: the last packet has a differently NAMED field (same count)
+        # 0: none; 1: the last packet has an extra field; 2: the last packet has a differently NAMED field (same count);
+        # 3: the last packet LACKS a field the others have (a strict subset)
+        mm = ctx.choose("mismatch", 4)
         mismatch = mm != 0
         use_raw = ctx.choose("raw", 2) == 1
         A, B = 17, 300
@@ -244,9 +246,10 @@ class Accumulate(Harness):
                 ap = z3.BitVec(f"apid{f}_{j}", W)
                 ctx.assume(z3.Or(ap == A, ap == B))
                 val = lib.common.IntParameter(1000 + serial, (5000 + serial) if serial else 0)      # the first packet's raw value is 0 (falsy)
-                items = {"X": val}
+                items = {"X": val, "EXTRA": lib.common.IntParameter(7)} if mm == 3 else {"X": val}
                 if mismatch and serial == sum(counts) - 1:
-                    items = {"X": lib.common.IntParameter(60000, 64000), "EXTRA": lib.common.IntParameter(7)} if mm == 1 else {"Y": lib.common.IntParameter(60000, 64000)}
+                    items = {"X": lib.common.IntParameter(60000, 64000), "EXTRA": lib.common.IntParameter(7)} if mm == 1 else \
+                        {"X": lib.common.IntParameter(60000, 64000)} if mm == 3 else {"Y": lib.common.IntParameter(60000, 64000)}
                 items = dict({"H": lib.common.IntParameter(3)}, **items)        # a field every packet has (as the header items of a real packet)
                 p = StubPacket(items, bv.SymInt(ap, nb=11, nonneg=True))
                 lst.append(p)
@@ -654,9 +657,11 @@ def concrete(req):
         for f in range(i["nfiles"]):
             blob = b""
             for j in range(i["counts"][f]):
-                body = b"\x00" + serial.to_bytes(2, "big")
+                mm = i.get("mm", 1)
+                body = (b"\x01" + serial.to_bytes(2, "big") + b"\x07") if mm == 3 else (b"\x00" + serial.to_bytes(2, "big"))
                 if i["mismatch"] and serial == total - 1:
-                    body = (b"\x01" + (60000).to_bytes(2, "big") + b"\x07") if i.get("mm", 1) == 1 else (b"\x02" + (60000).to_bytes(2, "big"))
+                    body = (b"\x01" + (60000).to_bytes(2, "big") + b"\x07") if mm == 1 else (b"\x00" + (60000).to_bytes(2, "big")) if mm == 3 else \
+                        (b"\x02" + (60000).to_bytes(2, "big"))
                 blob += bytes(lib.packets.create_ccsds_packet(body, apid=i["apids"][serial]))
                 serial += 1
             path = os.path.join(tmp, f"f{f}.bin")
